@@ -117,6 +117,21 @@ Definition glue_C06 (k : string) (a o : list value) : option verdict :=
     | Some (g, orc) => Some (relational g orc)
     | None => Some (relational false true)
     end
+  else if is k "lsn.noreply" then
+    (* args: variant a b c u z; observed: A answered?, the client's record after A, B's request,
+       B answered?, B's reply [org rx tx ref], the client's record after B *)
+    match a, o with
+    | [VZ _; VZ _; VZ _; VZ _; VZ _; VZ zA],
+      [VZ gotA; VL eA; VL [VZ qorg; VZ qrx; VZ qtx]; VZ gotB; VL [VZ org; VZ rx; VZ tx; VZ ref]; VL eB] =>
+        match parse_pairs eA, parse_pairs eB with
+        | Some entsA, Some entsB =>
+            let q := {| q_org := qorg; q_rx := qrx; q_tx := qtx |} in
+            Some (relational (C06_noreply_agree zA (gotA =? 1) entsA q (gotB =? 1) org rx tx ref entsB)
+                             (C06_noreply_ok (gotA =? 1) entsA q (gotB =? 1) org rx tx entsB))
+        | _, _ => Some (relational false true)
+        end
+    | _, _ => Some (relational false true)
+    end
   else if is k "lsn.slowlink" || is k "lsn.fallback" then
     match run_wire false o with
     | Some (g, orc) => Some (relational g orc)
